@@ -248,9 +248,17 @@ def extract():
             "choice((range,other_tokens))")
     expect(b == want, "lex_token(): range / other_tokens / span arithmetic")
     expect(S.body("insert_start") == "std::iter::once(Token{kind:TokenKind::Start,span:0..0,}).chain(tokens).collect()", "insert_start()")
-    b = S.body("lex_source")
-    expect("lexer().parse(source).into_result()" in b and "Ok(tokens)=>Ok(Tokens(insert_start(tokens.to_vec())))" in b
-           and "Err(errors)" in b, "lex_source()")
+    # lex_source / lex_source_recovery: the token loop, then the post-pass that rejects the whole source when a Float token is not
+    # finite (Model/Lexer.v [lex] / [tok_finite] / [float_nonfinite]), then insert_start -- pinned exactly
+    expect(S.body("lex_source") == "letresult=lexer().parse(source).into_result();matchresult{Ok(tokens)=>{leterrors=non_finite_literals(source,&tokens,0);"
+           "if!errors.is_empty(){returnErr(errors);}Ok(Tokens(insert_start(tokens.to_vec())))}"
+           "Err(errors)=>{leterrors=errors.into_iter().map(|error|convert_lexer_error(source,&error,0)).collect();Err(errors)}}", "lex_source()")
+    expect(S.body("lex_source_recovery") == "letresult=lexer().parse(source).into_result();matchresult{Ok(tokens)=>{leterrors=non_finite_literals(source,&tokens,source_id);"
+           "if!errors.is_empty(){return(None,errors);}(Some(insert_start(tokens.to_vec())),vec![])}"
+           "Err(errors)=>{leterrors=errors.into_iter().map(|error|convert_lexer_error(source,&error,source_id)).collect();(None,errors)}}", "lex_source_recovery()")
+    b = S.body("non_finite_literals")
+    expect(b.startswith("tokens.iter().filter(|t|matches!(&t.kind,TokenKind::Literal(Literal::Float(f))if!f.is_finite())).map(|t|{") and b.endswith(".collect()")
+           and "Error::new_simple(" in b, "non_finite_literals()")
 
     # ---- line_wrap / comment / param / ident_part / interpolation / raw_string
     expect(S.body("line_wrap") == "newline().ignore_then(whitespace().repeated().ignore_then(comment()).then_ignore(newline()).repeated().collect(),)"
@@ -334,8 +342,9 @@ def extract():
         units.append(rust_unescape(mm.group(1)))
     info["units"] = units
     b = S.body("value_and_unit")
-    expect("parse_integer().then(unit).then_ignore(end_expr()).map(" in b and
-           "letn=number_str.replace('_',\"\").parse::<i64>().unwrap_or(1);" in b, "value_and_unit() tail")
+    expect(b.endswith("parse_integer().then(unit).then_ignore(end_expr()).try_map(|(number_str,unit_str):(&str,&str),span|{"
+                      "letn=number_str.replace('_',\"\").parse::<i64>().map_err(|_|Simple::new(None,span))?;"
+                      "Ok(Literal::ValueAndUnit(ValueAndUnit{n,unit:unit_str.to_string(),}))},)"), "value_and_unit() tail (try_map: a count beyond i64 is not an interval literal)")
 
     # ---- date / time
     expect(S.body("digits") == "chumsky::text::digits(10).exactly(count).to_slice()", "digits()")
